@@ -46,11 +46,18 @@ CHECKS["C03"] = dict(
          "(notify_reaches_all), short or foreign-prefix datagrams enter no handler (short_is_ignored, prefix_gate). "
          "The decoder model is tied to the real Serializer on malformed inputs of every shipped class; the receive-path model is "
          "tied to real overlays of every class multiplexed on one endpoint, fed through Endpoint.notify_listeners; the property "
-         "is evaluated on the implementation (escaping exceptions, skipped listeners, foreign entries, over-reads).",
-    note="Trusted: Coq kernel; hand models M02_wire / M03_recv (correspondence-checked per run); handler bodies and cell "
-         "cryptography are oracles; relay tables paired (C05 invariant); exceptions inside asynchronous handler tasks are "
-         "swallowed by TaskManager and not observed; routing tables are empty in the correspondence part.",
-    technique="Coq proof (induction over formats; case analysis of the receive path) + differential correspondence", design="5/C03")
+         "is evaluated on the implementation (escaping exceptions, skipped listeners, foreign entries, over-reads). Second "
+         "property file props/C03x.v (13 theorems): notify_listeners / on_packet / StatisticsEndpoint / the crypto endpoint's cell "
+         "path (process_cell, relay_cell, incoming_crypto, CellPayload.from_bin) / on_cell / the lazy_wrapper family are translated "
+         "from the AST every run (tr_recv, fail closed) into a state-plus-exception monad with Python's index/slice/dict semantics; "
+         "over them, for every datagram and every well-formed table state with arbitrary handlers and cell crypto: delivery returns "
+         "normally, never reads out of range, enters only the handler registered for byte 22 of the matching prefix, reaches every "
+         "listener (notify_total_gen, notify_never_over_reads, entered_through_gate, notify_reaches_all_gen, prefix_gate_gen); no "
+         "relays_paired assumption. Tied by feeding real multiplexed overlays, a real 2-hop circuit's nodes and rendezvous relays.",
+    note="Trusted: Coq kernel; hand models M02_wire / M03_recv and tr_recv with its prelude (correspondence-checked per run); handler "
+         "bodies and cell cryptography are oracles (crypto_ok: decrypt fails only with ValueError/RuntimeError - checked on every "
+         "abstracted node); the hand model M03_recv alone assumes paired relay tables.",
+    technique="Coq proof (induction over formats; weakest-precondition calculus over the AST-translated receive path) + differential correspondence", design="5/C03")
 
 CHECKS["C20"] = dict(
     text="Coq theorems over a model of VariablePayload's interpreted methods and of the three code generators of vp_compile: for "
@@ -86,10 +93,18 @@ CHECKS["C01"] = dict(
          "via the C02 round trip), handlers_consistent / handlers_as_expected over the handler tables regenerated from the instantiated "
          "overlays on every run. The decorator model is tied to the real decorators on mutated real datagrams (signature oracle "
          "answered by the real primitive on the slices the model prescribes); authenticity of every handler-body entry and every new "
-         "verified peer is checked on the implementation independently of ipv8's slicing.",
-    note="Trusted: Coq kernel; unforgeability of the signature primitive (Section variable); tr_handlers introspection; model M01_auth "
-         "(correspondence-checked); handlers registered without a decorator (raw_handlers) are observed by the oracle only.",
-    technique="Coq proof over decorator model + regenerated handler tables + mutation-based differential correspondence", design="5/C01")
+         "verified peer is checked on the implementation independently of ipv8's slicing. Second property file props/C01x.v "
+         "(15 theorems): the decorator bodies and EZPackOverlay helpers of lazy_community.py are translated from the AST every run "
+         "(tr_auth, fail closed); over them: the handler is reached iff the datagram is accepted and then exactly once with the Peer "
+         "of the key field (gen_lazy_wrapper*_only_if_valid, gen_lazy_wrapper_accepts_valid, gen_peer_is_key), and for every sequence "
+         "of deliveries the verified-peer set grows only by keys that signed an accepted datagram and a verified peer's addresses "
+         "change only through a datagram accepted for its key (auth_no_verified_entry_without_key, induction over histories); "
+         "gen_refines_hand_model. Tied by running the real decorators on mutated datagrams in six receiver situations and whole "
+         "delivery histories against the generated model in Coq.",
+    note="Trusted: Coq kernel; unforgeability of the signature primitive (Section variable); tr_handlers introspection; tr_auth and the "
+         "runtime of M01_auth_gen (correspondence-checked); handlers touch the Network only through the Peer they are handed (checked by "
+         "the history oracle); handlers registered without a decorator (raw_handlers) are observed by the oracle only.",
+    technique="Coq proof over AST-translated decorators (history invariant by induction) + regenerated handler tables + mutation-based differential correspondence", design="5/C01")
 
 CHECKS["C08"] = dict(
     text="Coq-proved over a symbolic model of create/created/extend/extended (DH, MAC, KDF as one Section variable, instantiated by a "
